@@ -148,6 +148,10 @@ def symmetric_extension_hierarchy(
         probs = [1 / len(states)] * len(states)
     __is_probs_valid(probs)
 
+    # Kets may be given as 1-D arrays (as for `ppt_distinguishability`): view them as columns, without touching the caller's list.
+    if states[0].ndim == 1:
+        states = [state_ket.reshape(-1, 1) for state_ket in states]
+
     dim_xy, n_cols = states[0].shape
 
     # The variable `states` is provided as a list of vectors. Transform them
